@@ -430,3 +430,31 @@ SYSTEMATIC_STACKS = [
     ("pool3d-pad1-rect", (1, 3, 2, 2), [("conv", dict(K=1, depth=1, rf=1, identity=True)), ("pool", dict(k=2, s=1, p=1)), ("flatten",), ("gs", 1)]),
     ("pool3d-k3-s2-p1", (1, 2, 3, 2), [("conv", dict(K=1, depth=1, rf=1, identity=True)), ("pool", dict(k=3, s=2, p=1)), ("flatten",), ("gs", 1)]),
 ]
+
+
+def spatial_model_coq(spec):
+    """spatial_model literal for stacks Conv (Conv|Pool)* [Flatten Dense*]; None if the spec is not of that form."""
+    ls = spec["layers"]
+    sp, i = [], 0
+    shape = list(spec["input_shape"])
+    while i < len(ls) and ls[i]["kind"] in ("conv", "pool"):
+        l = ls[i]
+        if l["kind"] == "conv":
+            sp.append(f"LConv {conv_spec_coq(l)}")
+            shape = [l["kernels"]] + [out_len(n, l["padding"], r, l["stride"]) for n, r in zip(shape[1:], l["rf"])]
+        else:
+            sp.append(f"LPool {{| pl_dims := {_nl(shape[1:])}; pl_C := {shape[0]}; pl_kernel := {l['kernel']}; "
+                      f"pl_stride := {l['stride']}; pl_pad := {l['padding']} |}}")
+            shape = [shape[0]] + [out_len(n, l["padding"], l["kernel"], l["stride"]) for n in shape[1:]]
+        i += 1
+    if not sp or ls[0]["kind"] != "conv":
+        return None
+    flat = i < len(ls) and ls[i]["kind"] == "flatten"
+    if flat:
+        i += 1
+    dense = ls[i:]
+    if any(l["kind"] != "dense" for l in dense) or (dense and not flat):
+        return None
+    dl = "[" + "; ".join("[" + "; ".join(f"({a},{b},{g})" for a, b, g in zip(l["a"], l["b"], l["g"])) + "]" for l in dense) + "]"
+    return (f"{{| sm_C := {spec['input_shape'][0]}; sm_dims := {_nl(spec['input_shape'][1:])};\n   sm_spatial := [" + ";\n      ".join(sp) +
+            f"];\n   sm_flat := {'true' if flat else 'false'}; sm_dense := {dl} |}}")
